@@ -89,8 +89,16 @@ def gen(repo):
     if "parseRequestLine" not in fw:
         raise TranslateError("first fromWireFormat is not the request parser")
     fthrown = [int(x) for x in re.findall(r"throw\s+HttpRequestError\s*\(\s*(\d+)", fw)]
-    if len(fthrown) != 4:
-        raise TranslateError("HttpRequest::fromWireFormat: expected 4 HttpRequestError sites, found %s" % fthrown)
+    # RFC 9112 5.1 (FC15d): a field line with SP / HTAB right before its first colon is rejected — present or not, the model follows
+    ws_colon = re.search(r"if\s*\(\s*colonPos\s*!=\s*std::string::npos\s*\)\s*\{\s*if\s*\(\s*colonPos\s*>\s*0\s*&&\s*\(\s*line\[colonPos\s*-\s*1\]\s*==\s*' '\s*\|\|\s*line\[colonPos\s*-\s*1\]\s*==\s*'\\t'\s*\)\s*\)\s*\{\s*throw\s+HttpRequestError\s*\(\s*(\d+)", fw, re.S)
+    if ws_colon and len(fthrown) == 5 and fthrown[1] == int(ws_colon.group(1)):
+        st_ws_colon = fthrown.pop(1)
+        reject_ws_colon = True
+    elif not ws_colon and len(fthrown) == 4:
+        st_ws_colon = 400
+        reject_ws_colon = False
+    else:
+        raise TranslateError("HttpRequest::fromWireFormat: HttpRequestError sites not recognised: %s (whitespace-before-colon test %s)" % (fthrown, bool(ws_colon)))
     need(r"line\.front\(\)\s*==\s*' '\s*\|\|\s*line\.front\(\)\s*==\s*'\\t'", fw, "obs-fold test")
     need(r"hostCount\s*>\s*1", fw, "multiple Host test")
     need(r"request\.version\.minor\s*>=\s*1\s*&&\s*hostCount\s*==\s*0", fw, "missing Host test")
@@ -132,7 +140,15 @@ def gen(repo):
         need(r"headers\[\"Content-Length\"\]\s*=\s*std::to_string\(content\.size\(\)\)\s*;", b, "set_content Content-Length")
         need(r"body\s*=\s*(content|std::move\(content\))\s*;", b, "set_content body")
 
-    php = cxxscan.function_body(src, "processHttpRequest")
+    ST = r"(?:\s*&&\s*sameTransport\(\))?"      # optional generation check in a transport guard
+    # the worker function: with the generation check there is a two-argument forwarding overload in front of it
+    try:
+        php = cxxscan.function_body(src, "processHttpRequest", signature_contains="std::uint64_t epoch")
+        fwd = cxxscan.function_body(src, "processHttpRequest", nth=0)
+        if not re.fullmatch(r"\s*processHttpRequest\(sid,\s*requestData,\s*_transportEpoch\.load\(\)\)\s*;\s*", fwd):
+            raise TranslateError("processHttpRequest: two-argument overload is not a plain forwarder")
+    except cxxscan.ScanError:
+        php = cxxscan.function_body(src, "processHttpRequest")
     # shutdown arm
     sh = need(r"if\s*\(\s*_shutdown\.load\(\)\s*\)\s*\{(.*?)return\s*;\s*\}\s*try", php, "shutdown arm").group(1)
     shm = need(r"HttpResponse\s+shutdownRes\s*\(\s*(\d+)\s*,\s*\"([^\"]*)\"\s*\)\s*;", sh, "shutdown response ctor")
@@ -141,7 +157,7 @@ def gen(repo):
     if [(k, v) for k, v, _ in sh_hdrs if v is not None] != [("Content-Type", "text/plain"), ("Connection", "close")] or \
        [e for k, v, e in sh_hdrs if v is None] != ["std::to_string(shutdownRes.body.size())"]:
         raise TranslateError("shutdown arm: header list not recognised: %s" % sh_hdrs)
-    if len(re.findall(r"if\s*\(\s*_transport\s*\)", sh)) != 2 or "_transport->close(sid)" not in sh:
+    if len(re.findall(r"if\s*\(\s*_transport%s\s*\)" % ST, sh)) != 2 or "_transport->close(sid)" not in sh:
         raise TranslateError("shutdown arm: send/close guards not recognised")
 
     # error arm
@@ -173,7 +189,7 @@ def gen(repo):
         raise TranslateError("error arm: header list not recognised: %s" % ea_hdrs)
     need(r"errorRes\.body\s*=\s*getStatusText\(errStatus\)\s*;", ea, "error arm body")
     need(r"errorSendOk\s*=\s*true\s*;", ea, "error arm send flag")
-    need(r"if\s*\(\s*errorSendOk\s*\)\s*\{\s*std::lock_guard<std::mutex>\s+lock\(_mutex\)\s*;\s*if\s*\(\s*_transport\s*&&\s*!_shutdown\s*\)\s*\{\s*_transport->close\(sid\)\s*;", ea, "error arm close")
+    need(r"if\s*\(\s*errorSendOk\s*\)\s*\{\s*std::lock_guard<std::mutex>\s+lock\(_mutex\)\s*;\s*if\s*\(\s*_transport\s*&&\s*!_shutdown" + ST + r"\s*\)\s*\{\s*_transport->close\(sid\)\s*;", ea, "error arm close")
 
     # default response, categories
     need(r"Response\s+res\s*;\s*res\.status\s*=\s*404\s*;\s*res\.set_content\(\s*\"Not Found\"\s*,\s*\"text/plain\"\s*\)\s*;", php, "default 404 response")
@@ -207,8 +223,8 @@ def gen(repo):
     cdb = cd.group(2)
     ver10 = need(r"if\s*\(\s*it->second\.httpVersion\s*==\s*\"([^\"]*)\"\s*\)\s*\{\s*shouldCloseConnection\s*=\s*true\s*;\s*connectionHeader\s*=\s*\"([^\"]*)\"\s*;\s*\}\s*else\s+if\s*\(\s*!\s*it->second\.connectionKeepAlive\s*\)\s*\{\s*shouldCloseConnection\s*=\s*true\s*;\s*connectionHeader\s*=\s*\"([^\"]*)\"\s*;", cdb, "session version / keep-alive test")
     hb = need(r"auto\s+connectionIt\s*=\s*req\.headers\.find\(\"Connection\"\)\s*;\s*if\s*\(\s*connectionIt\s*!=\s*req\.headers\.end\(\)\s*\)\s*\{(.*)\}\s*$", cdb.rstrip(), "request Connection test").group(1)
-    whole = re.search(r"std::string\s+connValue\s*=\s*connectionIt->second\s*;\s*std::transform\([^;]*::tolower\)\s*;\s*if\s*\(\s*connValue\s*==\s*\"([^\"]*)\"\s*\)\s*\{\s*shouldCloseConnection\s*=\s*true\s*;\s*connectionHeader\s*=\s*\"([^\"]*)\"\s*;\s*\}\s*$", hb.strip(), re.S)
-    tok = re.search(r"connValue\.find\(\s*','\s*,\s*tokStart\s*\).*?substr\(tokStart,\s*tokEnd\s*-\s*tokStart\)\s*;\s*token\.erase\(0,\s*token\.find_first_not_of\(\" \\t\"\)\)\s*;\s*token\.erase\(token\.find_last_not_of\(\" \\t\"\)\s*\+\s*1\)\s*;\s*std::transform\([^;]*::tolower\)\s*;\s*if\s*\(\s*token\s*==\s*\"([^\"]*)\"\s*\)\s*\{\s*shouldCloseConnection\s*=\s*true\s*;\s*connectionHeader\s*=\s*\"([^\"]*)\"\s*;\s*\}\s*if\s*\(\s*comma\s*==\s*std::string::npos\s*\)\s*\{\s*break\s*;\s*\}\s*tokStart\s*=\s*comma\s*\+\s*1\s*;", hb, re.S)
+    whole = re.search(r"std::string\s+connValue\s*=\s*connectionIt->second\s*;\s*std::transform\([^;]*(?:::tolower|asciiLower)\)\s*;\s*if\s*\(\s*connValue\s*==\s*\"([^\"]*)\"\s*\)\s*\{\s*shouldCloseConnection\s*=\s*true\s*;\s*connectionHeader\s*=\s*\"([^\"]*)\"\s*;\s*\}\s*$", hb.strip(), re.S)
+    tok = re.search(r"connValue\.find\(\s*','\s*,\s*tokStart\s*\).*?substr\(tokStart,\s*tokEnd\s*-\s*tokStart\)\s*;\s*token\.erase\(0,\s*token\.find_first_not_of\(\" \\t\"\)\)\s*;\s*token\.erase\(token\.find_last_not_of\(\" \\t\"\)\s*\+\s*1\)\s*;\s*std::transform\([^;]*(?:::tolower|asciiLower)\)\s*;\s*if\s*\(\s*token\s*==\s*\"([^\"]*)\"\s*\)\s*\{\s*shouldCloseConnection\s*=\s*true\s*;\s*connectionHeader\s*=\s*\"([^\"]*)\"\s*;\s*\}\s*if\s*\(\s*comma\s*==\s*std::string::npos\s*\)\s*\{\s*break\s*;\s*\}\s*tokStart\s*=\s*comma\s*\+\s*1\s*;", hb, re.S)
     if whole and not tok:
         tokenised, close_tok, close_val = False, whole.group(1), whole.group(2)
     elif tok and not whole:
@@ -221,7 +237,7 @@ def gen(repo):
     if [(k, v if v is not None else e) for k, v, e in srv_hdrs] != [("Server", srv_hdrs[0][1]), ("Connection", "connectionHeader")] or srv_hdrs[0][1] is None:
         raise TranslateError("response default headers not recognised: %s" % srv_hdrs)
     need(r"httpRes\.statusCode\s*=\s*res\.status\s*;\s*httpRes\.statusText\s*=\s*getStatusText\(res\.status\)\s*;\s*httpRes\.headers\s*=\s*res\.headers\s*;\s*httpRes\.body\s*=\s*res\.body\s*;", php, "response assembly")
-    need(r"if\s*\(\s*sendFailed\s*\|\|\s*\(\s*sendSucceeded\s*&&\s*shouldCloseConnection\s*\)\s*\)\s*\{\s*std::lock_guard<std::mutex>\s+lock\(_mutex\)\s*;\s*if\s*\(\s*_transport\s*&&\s*!_shutdown\s*\)\s*\{\s*_transport->close\(sid\)\s*;", php, "close-after-response block")
+    need(r"if\s*\(\s*sendFailed\s*\|\|\s*\(\s*sendSucceeded\s*&&\s*shouldCloseConnection\s*\)\s*\)\s*\{\s*std::lock_guard<std::mutex>\s+lock\(_mutex\)\s*;\s*if\s*\(\s*_transport\s*&&\s*!_shutdown" + ST + r"\s*\)\s*\{\s*_transport->close\(sid\)\s*;", php, "close-after-response block")
     if len(re.findall(r"_transport->sendAsync\(", php)) != 4:
         raise TranslateError("processHttpRequest: expected exactly 4 sendAsync call sites (shutdown, upgrade, response, error), found %d"
                              % len(re.findall(r"_transport->sendAsync\(", php)))
@@ -232,6 +248,59 @@ def gen(repo):
     if len(up_hdrs) != 1 or up_hdrs[0][0] != "Server" or up_hdrs[0][1] != srv_hdrs[0][1]:
         raise TranslateError("upgrade arm: default headers not recognised: %s" % up_hdrs)
 
+    # buffer drain of the upgrade arm: the third virtual hook (onUpgradedData) runs on the worker thread AFTER the upgrade response
+    # was handed to the transport.  Guarded = inside its own try/catch (...) that ends the connection through closeSession;
+    # bare = inside the function's try, so a throw reaches the error arm and a second response (500) follows the 101.
+    if len(re.findall(r"\bonUpgradedData\s*\(", up)) != 1:
+        raise TranslateError("upgrade arm: expected exactly one onUpgradedData call (buffer drain)")
+    need(r"if\s*\(\s*it\s*!=\s*_sessionInfo\.end\(\)\s*&&\s*!it->second\.buffer\.empty\(\)\s*\)\s*\{\s*remaining\s*=\s*std::move\(it->second\.buffer\)\s*;", up, "upgrade arm: buffer drain source")
+    dr_guarded = re.search(r"if\s*\(\s*!remaining\.empty\(\)\s*\)\s*\{\s*try\s*\{\s*onUpgradedData\(sid,[^;]*\)\s*;\s*\}\s*catch\s*\(\s*\.\.\.\s*\)\s*\{[^{}]*closeSession\(sid\)\s*;\s*\}\s*\}", up, re.S)
+    dr_bare = re.search(r"if\s*\(\s*!remaining\.empty\(\)\s*\)\s*\{\s*onUpgradedData\(sid,[^;]*\)\s*;\s*\}", up, re.S)
+    if bool(dr_guarded) == bool(dr_bare):
+        raise TranslateError("upgrade arm: buffer drain is neither `try { onUpgradedData } catch (...) { closeSession }` nor a bare call")
+    if dr_guarded and re.search(r"sendAsync|sendErrorResponse", dr_guarded.group(0)):
+        raise TranslateError("upgrade arm: the drain's catch sends something")
+    cs = cxxscan.function_body(src, "closeSession")
+    need(r"^\s*std::lock_guard<std::mutex>\s+lock\(_mutex\)\s*;\s*if\s*\(\s*_transport\s*&&\s*!_shutdown\s*\)\s*\{\s*_transport->close\(sid\)\s*;\s*\}\s*$", cs, "closeSession (guarded close under _mutex)")
+    # the upgrade send itself: guarded, completion ignores the result
+    need(r"if\s*\(\s*_transport\s*&&\s*!_shutdown" + ST + r"\s*\)\s*\{\s*_transport->sendAsync\(sid,\s*sharedResponseData->data\(\),\s*sharedResponseData->size\(\),", up, "upgrade arm: guarded send")
+
+    # start(): per-session write-queue bound handed to the transport (backpressure closes a session beyond it)
+    stt = cxxscan.function_body(src, "start")
+    max_wq = int(need(r"config\.maxWriteQueue\s*=\s*(\d+)\s*;", stt, "start(): config.maxWriteQueue").group(1))
+
+    # stop() / start() on one object: stop() gives up on running handlers after a bounded wait and resets the transport; start() clears
+    # _shutdown and installs a fresh Transport (its engine numbers sessions from 1 again); the pool and its tasks survive
+    stp = cxxscan.function_body(src, "stop")
+    drain_s = int(need(r"const\s+auto\s+maxWaitTime\s*=\s*std::chrono::seconds\((\d+)\)\s*;", stp, "stop(): bounded drain wait").group(1))
+    need(r"while\s*\(\s*_threadPool\.getPendingTaskCount\(\)\s*>\s*0\s*\|\|\s*_threadPool\.getActiveThreadCount\(\)\s*>\s*0\s*\)\s*\{.*?if\s*\(\s*elapsed\s*>\s*maxWaitTime\s*\)\s*\{.*?break\s*;\s*\}",
+         stp, "stop(): drain loop that gives up at the timeout")
+    need(r"_shutdown\.store\(true\)\s*;", stp, "stop(): sets _shutdown")
+    need(r"_transport\.reset\(\)\s*;", stp, "stop(): resets the transport")
+    need(r"_shutdown\s*=\s*false\s*;", stt, "start(): clears _shutdown")
+    need(r"_transport\s*=\s*Transport::tcp\(config\)\s*;", stt, "start(): installs a fresh Transport")
+    # does the task handed to the pool carry the identity of the transport its request arrived on?
+    hid_src = cxxscan.function_body(src, "handleIncomingData")
+    disp_plain = re.search(r"_threadPool\.tryEnqueue\(\s*\[this,\s*sid,\s*requestData\]\(\)\s*\{\s*processHttpRequest\(sid,\s*requestData\)\s*;\s*\}\s*\)", hid_src, re.S)
+    disp_epoch = re.search(r"const\s+std::uint64_t\s+epoch\s*=\s*_transportEpoch\.load\(\)\s*;\s*if\s*\(\s*!\s*_threadPool\.tryEnqueue\(\s*\[this,\s*sid,\s*requestData,\s*epoch\]\(\)\s*\{\s*processHttpRequest\(sid,\s*requestData,\s*epoch\)\s*;\s*\}\s*\)", hid_src, re.S)
+    n_same = len(re.findall(r"sameTransport\(\)", php))
+    if disp_plain and not disp_epoch and n_same == 0 and "_transportEpoch" not in src:
+        dispatch_checks_generation = False
+    elif disp_epoch and not disp_plain:
+        # the worker compares the epoch captured at dispatch inside EVERY guarded block: 2 (shutdown arm) + upgrade send + response send/close + error send/close
+        need(r"const\s+auto\s+sameTransport\s*=\s*\[this,\s*epoch\]\(\)\s*\{\s*return\s+_transportEpoch\.load\(\)\s*==\s*epoch\s*;\s*\}\s*;", php, "sameTransport helper")
+        guards = len(re.findall(r"if\s*\(\s*_transport\s*(?:&&\s*!_shutdown\s*)?&&\s*sameTransport\(\)\s*\)", php))
+        bare = len(re.findall(r"if\s*\(\s*_transport\s*(?:&&\s*!_shutdown\s*)?\)", php))
+        if guards != 7 or bare != 0 or n_same != 7:
+            raise TranslateError("processHttpRequest: generation check present but not on every guarded block (%d with, %d without, %d uses)" % (guards, bare, n_same))
+        need(r"_shutdown\s*=\s*false\s*;[^;{}]*\+\+_transportEpoch\s*;", stt, "start(): advances the epoch under _mutex")
+        need(r"^\s*std::lock_guard<std::mutex>\s+lock\(_mutex\)\s*;", stt, "start(): holds _mutex")
+        if len(re.findall(r"_transportEpoch", src)) != 5:
+            raise TranslateError("_transportEpoch: expected 5 occurrences (member, start(), dispatch capture, overload, helper), found %d" % len(re.findall(r"_transportEpoch", src)))
+        dispatch_checks_generation = True
+    else:
+        raise TranslateError("handleIncomingData: dispatch lambda shape not recognised (neither plain nor epoch-carrying)")
+
     # safety net
     sn = cxxscan.function_body(src, "invokeWithSafetyNet")
     nets = re.findall(r"catch\s*\(([^)]*)\)\s*\{.*?res\.status\s*=\s*(\d+)\s*;\s*res\.set_content\(\s*\"([^\"]*)\"\s*,\s*\"text/plain\"\s*\)\s*;\s*res\._suppressSend\s*=\s*false\s*;\s*\}", sn, re.S)
@@ -241,7 +310,7 @@ def gen(repo):
 
     # pool overflow
     hid = cxxscan.function_body(src, "handleIncomingData")
-    ov = need(r"if\s*\(\s*!\s*_threadPool\.tryEnqueue\(\s*\[this,\s*sid,\s*requestData\]\(\)\s*\{\s*processHttpRequest\(sid,\s*requestData\)\s*;\s*\}\s*\)\s*\)\s*\{(.*?)\}\s*else\s+if", hid, "tryEnqueue dispatch").group(1)
+    ov = need(r"if\s*\(\s*!\s*_threadPool\.tryEnqueue\(\s*\[this,\s*sid,\s*requestData(?:,\s*epoch)?\]\(\)\s*\{\s*processHttpRequest\(sid,\s*requestData(?:,\s*epoch)?\)\s*;\s*\}\s*\)\s*\)\s*\{(.*?)\}\s*else\s+if", hid, "tryEnqueue dispatch").group(1)
     ovm = need(r"sendErrorResponse\(\s*sid\s*,\s*(\d+)\s*,\s*\"([^\"]*)\"\s*,\s*\"([^\"]*)\"\s*\)\s*;", ov, "overflow response")
     ser = cxxscan.function_body(src, "sendErrorResponse")
     ser_hdrs = set_headers(ser, "errorRes")
@@ -275,6 +344,8 @@ def gen(repo):
     t += "def supportedMajor : Nat := %d\n" % int(major.group(1))
     t += "/-- statuses thrown by `HttpRequest::fromWireFormat`, in source order: obs-fold, multiple Host, missing Host (minor >= 1), empty Host -/\n"
     t += "def stObsFold : Nat := %d\ndef stMultipleHost : Nat := %d\ndef stMissingHost : Nat := %d\ndef stEmptyHost : Nat := %d\n" % tuple(fthrown)
+    t += "/-- the header loop rejects a field line with SP / HTAB right before its first colon (RFC 9112 5.1; false: the name is trimmed and accepted) -/\n"
+    t += "def rejectWsBeforeColon : Bool := %s\ndef stWsBeforeColon : Nat := %d\n" % ("true" if reject_ws_colon else "false", st_ws_colon)
     t += "/-- `detail::isListValuedHeader` allow-list (repeated field-lines are joined with \", \"; every other field is last-wins) -/\n"
     t += "def listValuedHeaders : List String := [%s]\n" % ", ".join(lstr(x) for x in listv)
     t += "/-- `HttpServer::getStatusText` -/\n"
@@ -284,6 +355,8 @@ def gen(repo):
     t += "def errDefaultStatus : Nat := %d\n" % err_default
     t += "/-- the arm is `catch (...)` (true: an exception of any type gets the terminal error response) or `catch (const std::exception &)`\n    (false, the unrepaired code: a non-std exception thrown by a subclass seam escapes and the request is never answered) -/\n"
     t += "def errCatchesAll : Bool := %s\n" % ("true" if err_catches_all else "false")
+    t += "/-- the buffer drain of the upgrade arm calls `onUpgradedData` inside its own `try { } catch (...) { closeSession(sid); }` (true),\n    or bare inside the function's `try` (false, the unrepaired code: a throw sends a 500 behind the 101 — two responses) -/\n"
+    t += "def upgradeDrainGuarded : Bool := %s\n" % ("true" if dr_guarded else "false")
     t += "/-- literal headers of the error response (Content-Length = body size is added; body = status text; the arm always closes) -/\n"
     t += "def errContentType : String := %s\ndef errConnection : String := %s\n" % (lstr(ea_hdrs[0][1]), lstr(ea_hdrs[1][1]))
     t += "/-- shutdown arm -/\n"
@@ -310,5 +383,11 @@ def gen(repo):
     t += "def bodylessAllMethods : Bool := %s\n" % ("true" if bodyless_all_methods else "false")
     t += "/-- `_threadPool(initial, max, ...)` and `ThreadPool`'s default `maxQueueSize` -/\n"
     t += "def poolInitial : Nat := %d\ndef poolMax : Nat := %d\ndef poolQueueCap : Nat := %d\n" % (int(ctor.group(1)), int(ctor.group(2)), qcap)
+    t += "/-- `start()`: `config.maxWriteQueue` — Send commands a session's write queue holds before the engine closes it (backpressure) -/\n"
+    t += "def maxWriteQueue : Nat := %d\n" % max_wq
+    t += "/-- `stop()`: seconds it waits for the worker pool before it resets the transport regardless (the pool's tasks survive) -/\n"
+    t += "def stopDrainSeconds : Nat := %d\n" % drain_s
+    t += "/-- the task handed to the pool (`[this, sid, requestData]`) also carries and checks the identity of the transport its request\n    arrived on (false: it addresses its commands by session id only) -/\n"
+    t += "def dispatchChecksGeneration : Bool := %s\n" % ("true" if dispatch_checks_generation else "false")
     t += "end Iora.Gen.HttpRespond\n"
     return "IoraModel/Gen/HttpRespond.lean", t
